@@ -109,9 +109,9 @@ PROPS = {
     },
     "C04": {
         "pkg": "hreader", "test": "TestC04", "level": "exploration",
-        "quick": T(16, 0, timeout=900, tests=[{"test": "TestC04", "checks": 25}, {"test": "TestC04_PendingEvent", "checks": 6, "shards": 4}]),
-        "thorough": T(16, 0, timeout=7000, tests=[{"test": "TestC04", "checks": 800}, {"test": "TestC04_PendingEvent", "checks": 60, "shards": 4}]),
-        "rule": "TestC04_PendingEvent: the consumer of the API events is held, ten create-partition events fill the event channel, every shard delivers the drop, the collection is stopped, the consumer is released: no drop request may come out. TestC04: scenarios {live drop-collection, live drop-partition, collection dropped while CDC was down (Dropped/Dropping state, checkpoint time != 0), partition dropped while down} x 1..3 shards on distinct pchannels x database default/named, "
+        "quick": T(16, 0, timeout=900, tests=[{"test": "TestC04", "checks": 25}, {"test": "TestC04_PendingEvent", "checks": 6, "shards": 4}, {"test": "TestC04_Lifecycle", "checks": 20, "shards": 8}]),
+        "thorough": T(16, 0, timeout=7000, tests=[{"test": "TestC04", "checks": 800}, {"test": "TestC04_PendingEvent", "checks": 60, "shards": 4}, {"test": "TestC04_Lifecycle", "checks": 600, "shards": 16}]),
+        "rule": "TestC04_Lifecycle: a repeated notification overlapping the first one and / or a stop followed by a new start on the same channel manager (partition registered again), then every shard delivers the drop: exactly one drop request, no error event. TestC04_PendingEvent: the consumer of the API events is held, ten create-partition events fill the event channel, every shard delivers the drop, the collection is stopped, the consumer is released: no drop request may come out. TestC04: scenarios {live drop-collection, live drop-partition, collection dropped while CDC was down (Dropped/Dropping state, checkpoint time != 0), partition dropped while down} x 1..3 shards on distinct pchannels x database default/named, "
                 "a second collection sharing the first pchannel, per-shard scripts (0..2 data packs, the drop message alone or behind data in its pack, trailing data after a partition drop), AddPartition before or after the shard streams are registered, "
                 "drawn feed interleaving, StopReadCollection at a drawn point in 25% of the live cases. Oracle on GetEventChan: at most one drop request per object, exactly one iff every shard delivered the drop (and no stop), never before the last shard's "
                 "drop was handed over (logical clock), right database/collection/partition names, task attribution, a stop never yields a drop, exactly one after restart for objects dropped while down. "
